@@ -16,19 +16,10 @@
 //@ lemma lemma_duplicate_collapses_runs
 //@ lemma lemma_duplicate_initial_state
 //@ lemma lemma_seq_consecutive
+#define VERIF_OWN_QVARIANTHASH_INSERT_KV
 #include "models/ident.h"
 
-/* QVariant holding an int (QVariant(int)): kind 2 = int, ival the number */
-typedef struct { QString first; QVariant second; int second_is_int; int second_int; } std_pair_QString_QVariant;
-static inline std_pair_QString_QVariant std_pair_QString_QVariant_ctor__QString_int(QString *first, int second)
-{ std_pair_QString_QVariant p; p.first = *first; p.second.id = 0; p.second_is_int = 1; p.second_int = second; return p; }
-
-/* ghost view of the QVariantHash built by a brace initialiser: number of entries, the last key/value */
-unsigned long long g_hash_entries; QString g_hash_key; int g_hash_int; int g_hash_is_int;
-void QVariantHash_initlist_add__std_pair_QString_QVariant(QVariantHash *self, std_pair_QString_QVariant e)
-__CPROVER_assigns(self->id, g_hash_entries, g_hash_key, g_hash_int, g_hash_is_int)
-__CPROVER_ensures(g_hash_entries == __CPROVER_old(g_hash_entries) + 1 && g_hash_is_int == e.second_is_int && g_hash_int == e.second_int)
-__CPROVER_ensures(QSTRING_SAME(g_hash_key, e.first) && g_hash_key.id == e.first.id);
+#include "contracts/C16/hashview.h"
 
 /* regular expressions: the verdict is an uninterpreted function of (pattern identity, subject text) -- axiom A-regex */
 typedef struct { int id; } QRegularExpression;
